@@ -24,7 +24,7 @@ UFUNC1 = {
     "exp", "log", "log10", "log2", "log1p", "expm1", "sqrt", "cbrt", "square", "abs",
     "absolute", "fabs", "sign", "floor", "ceil", "rint", "round", "trunc",
     "degrees", "radians", "rad2deg", "deg2rad", "reciprocal", "isnan", "isfinite",
-    "isinf", "nan_to_num", "real", "conj", "exp2",
+    "isinf", "nan_to_num", "conj", "exp2",
     "float32", "float64", "int32", "int64", "single", "double", "bool_", "intp",
 }
 # elementwise with 2+ array args
@@ -34,7 +34,18 @@ ALLOC_LIKE = {"zeros_like", "ones_like", "empty_like", "full_like"}
 ALLOC = {"zeros", "ones", "empty", "full", "arange", "linspace", "logspace", "array",
          "copy", "eye", "identity", "meshgrid", "indices", "fromiter", "geomspace"}
 VIEW = {"asarray", "asanyarray", "ravel", "reshape", "squeeze", "broadcast_to", "transpose",
-        "atleast_1d", "atleast_2d", "swapaxes", "moveaxis", "expand_dims", "ascontiguousarray"}
+        "atleast_1d", "atleast_2d", "swapaxes", "moveaxis", "expand_dims", "ascontiguousarray",
+        # results that are (or may be) views of / the very same object as the first argument
+        "flip", "flipud", "fliplr", "rot90", "diagonal", "rollaxis", "atleast_3d", "real", "imag",
+        "trim_zeros", "require", "asfarray", "asarray_chkfinite", "asfortranarray", "split", "array_split",
+        "hsplit", "vsplit", "dsplit", "broadcast_arrays", "frombuffer", "matrix_transpose", "permute_dims",
+        "lib.stride_tricks.as_strided", "lib.stride_tricks.sliding_window_view", "lib.stride_tricks.broadcast_to"}
+# numpy callables that overwrite (part of) their first argument
+NP_INPLACE = {"put", "copyto", "place", "putmask", "fill_diagonal", "put_along_axis"}
+# numpy callables that modify an argument in place or touch the outside world: never assumed pure
+NP_NOT_PURE = {"put", "copyto", "place", "putmask", "fill_diagonal", "put_along_axis", "fromfile", "setbufsize",
+               "seterrcall", "load", "save", "savez", "savez_compressed", "savetxt", "loadtxt", "genfromtxt",
+               "memmap", "DataSource", "fromregex", "shuffle"}
 REDUCE = {"sum", "mean", "var", "std", "prod", "amax", "amin", "max", "min", "argmax",
           "argmin", "count_nonzero", "all", "any", "median", "nansum", "nanmean", "nanmax",
           "nanmin", "average", "ptp", "trapz", "percentile", "quantile"}
@@ -166,7 +177,14 @@ def category(qual: str) -> str:
             return "reduce"
         if s in PURE_MISC or s.startswith("polynomial.") or s.startswith("typing."):
             return "pure"
-        return "unknown"
+        if s in NP_INPLACE:
+            return "mutate"
+        if s in NP_NOT_PURE or s.split(".")[0] in ("ctypeslib", "testing", "f2py", "distutils", "lib") or \
+                s.startswith("_"):
+            return "unknown"
+        # the rest of the numpy namespace (pad, nanpercentile, cov, apply_along_axis, ...) computes a new value from its
+        # arguments
+        return "pure"
     if qual.startswith("builtins."):
         b = qual[9:]
         if b == "print":
